@@ -28,7 +28,15 @@ BATTERY = [0, -1, slice(1, 3), slice(None), [0, 2], np.array([1, 2])]
 
 
 def base_data(dtype):
-    return (np.arange(NR * NC) + 1).reshape((NR, NC)).astype(dtype)
+    """int64 (compared with the specification's EvalInt): the cell identities 1..6. Floating-point sample types
+    hold both signed zeros (1 / -x and 1 / (0 - x) differ there) and a negative value; the other integer types
+    hold a zero."""
+    dtype = np.dtype(dtype)
+    if dtype == np.int64:
+        return (np.arange(NR * NC) + 1).reshape((NR, NC)).astype(dtype)
+    if dtype.kind == 'f':
+        return np.array([-1.0, 0.0, -0.0, 2.0, 3.0, 4.0]).reshape((NR, NC)).astype(dtype)
+    return np.arange(NR * NC).reshape((NR, NC)).astype(dtype)
 
 
 def make_backends(ctx, d, names):
@@ -44,7 +52,7 @@ def make_backends(ctx, d, names):
         elif kind == 'flat':
             paths = []
             for k, (a, b) in enumerate([(0, 2), (2, 3)]):
-                p = d / ('f_%s_%d.bin' % (dt, k))
+                p = d / ('f_%s_%d.bin' % (dt, 9 + k))
                 write_flat(p, full[a:b], offset=3)
                 paths.append(p)
             out[name] = (get_ephys_reader(paths, sample_rate=100., dtype=dtype, n_channels=NC,
@@ -93,6 +101,8 @@ def same_values(a, b):
         return np.array_equal(a, b)
     eps = np.finfo(a.dtype).eps
     with np.errstate(all='ignore'):
+        if not np.array_equal(np.signbit(a) & (a == 0), np.signbit(b) & (b == 0)):
+            return False                   # the sign of a zero is part of the value (it decides 1 / x)
         return bool(np.all((a == b) | (np.isnan(a) & np.isnan(b)) |
                            (np.abs(a - b) <= 4 * eps * np.maximum(np.abs(a), np.abs(b)))))
 
